@@ -108,7 +108,7 @@ def _check_message_total(run: Run, m, fi: FuncInfo, r: ast.Raise) -> None:
         if bad and (ASSERT_WHITELIST.get(fi.qual) or _BY_PATH.get(fi.qual.split(":")[1])):
             from ..lib import call_sites_of as _cs
 
-            bad = [b_ for b_ in bad if not (isinstance(b_[1], ast.Assert) and b_[0].is_private and all(c_.qual == fi.qual for c_, _a, _b in _cs(m, b_[0])))]
+            bad = [b_ for b_ in bad if not (isinstance(b_[1], ast.Assert) and (b_[0].is_private or b_[0].qual.startswith(fi.qual + ".")) and all(c_.qual == fi.qual or c_.qual.startswith(fi.qual + ".") for c_, _a, _b in _cs(m, b_[0])))]  # (.. or its nested functions)
         run.check(
             not bad,
             "C10.R4",
